@@ -28,6 +28,14 @@ static std::string valueOf(const RSModel& m, EntityUID uid) {
   return s.has_value() ? (*s ? "TRUE" : "FALSE") : "<none>";
 }
 
+// every basic element inside structure data (at any depth: element, tuple component, set member) still exists in X1
+static bool onlyExisting(const object::StructuredData& d, const TextInterpretation& text) {
+  if (d.IsElement()) return text.HasInterpretantFor(d.E().Value());
+  if (d.IsTuple()) { for (rslang::Index i = 1; i <= d.T().Arity(); ++i) if (!onlyExisting(d.T().Component(i), text)) return false; return true; }
+  for (const auto& e : d.B()) if (!onlyExisting(e, text)) return false;
+  return true;
+}
+
 extern "C" void harness_main() {
   RSModel m;
   const auto x1 = m.Emplace(CstType::base);
@@ -45,8 +53,14 @@ extern "C" void harness_main() {
   m.Values().AddBasicElement(x1, "a");
   m.Values().AddBasicElement(x1, "b");
   m.Values().SetStructureData(s1, Factory::SetV({1}));
+  // structures that are not sets: an element of X1 and a pair over X1 (pruned as a whole when a component disappears)
+  const auto s2 = m.Emplace(CstType::structured, "X1");
+  const auto s3 = m.Emplace(CstType::structured, "X1\xC3\x97X1");
+  m.Values().SetStructureData(s2, Factory::Val(2));
+  m.Values().SetStructureData(s3, Factory::Tuple({Factory::Val(1), Factory::Val(2)}));
   m.Calculations().RecalculateAll();
   std::vector<EntityUID> all{x1, s1, d1, d2, a1, f1};
+  const std::vector<EntityUID> structures{s1, s2, s3};
   static const char* const OPNAME[] = {"AddBasicElement", "SetBasicText", "SetStructureData", "ResetDataFor", "SetExpressionFor", "Erase", "Emplace", "Calculate", "RecalculateAll"};
   std::string history;
   for (int step = 0; step < K; ++step) {
@@ -99,13 +113,14 @@ extern "C" void harness_main() {
       if (fresh.Contains(uid)) sym_assert(valueOf(m, uid) == valueOf(fresh, uid), ("shown-value-is-current[after " + history + "]").c_str());
       sym_reach("value-shown");
     }
-    if (type == CstType::structured) {
+  }
+  if (m.Contains(x1))
+    for (const auto uid : structures) {
+      if (!m.Contains(uid) || m.GetRS(uid).type != CstType::structured) continue;
       const auto data = m.Values().SDataFor(uid);
       const auto* text = m.Values().TextFor(x1);
-      if (data.has_value() && data->IsCollection() && m.Contains(x1) && text != nullptr)
-        for (const auto& e : data->B()) if (e.IsElement()) sym_assert(text->HasInterpretantFor(e.E().Value()), "structure-data-only-existing-elements");
+      if (data.has_value() && text != nullptr) sym_assert(onlyExisting(*data, *text), "structure-data-only-existing-elements");
     }
-  }
   sym_reach("compared");
 #ifdef WITNESS
   sym_assert(false, "witness");
